@@ -270,13 +270,16 @@ WriteFile ==                 \* a line store: the file holds s plus newline; app
          p == a[1].v
          app == Top.app /\ a[3].v
          old == IF app /\ p \in DOMAIN fs THEN fs[p] ELSE ""
-     IN /\ fs' = (p :> (old \o a[2].v \o "\n")) @@ fs
-        /\ vals' = DropVals(k) /\ ctl' = Pop
-  /\ UNCHANGED <<status, out, stdin, alog>> /\ UNCH_STORE
+     IN IF p = "" THEN Undef("write-to-the-empty-path") /\ UNCHANGED fs      \* no file has the empty name
+        ELSE /\ fs' = (p :> (old \o a[2].v \o "\n")) @@ fs
+             /\ vals' = DropVals(k) /\ ctl' = Pop /\ UNCHANGED status
+  /\ UNCHANGED <<out, stdin, alog>> /\ UNCH_STORE
 
-StmtExpr ==                  \* an expression used as a statement: evaluated for its effects, value(s) dropped
+RECURSIVE Ungroup(_)
+Ungroup(e) == IF e.k = "group" THEN Ungroup(e.e) ELSE e
+StmtExpr ==                  \* an expression used as a statement: evaluated for its effects, value(s) dropped; parentheses around it mean nothing
   /\ Top.t = "stmt" /\ Top.n.k = "expr"
-  /\ ctl' = Pop \o <<[t |-> "exprdrop", base |-> Len(vals)]>> \o <<[t |-> "expr", n |-> Top.n.e]>>
+  /\ ctl' = Pop \o <<[t |-> "exprdrop", base |-> Len(vals)]>> \o <<[t |-> "expr", n |-> Ungroup(Top.n.e)]>>
   /\ UNCHANGED <<vals, status>> /\ UNCH_STORE /\ UNCH_WORLD
 ExprDrop ==
   /\ Top.t = "exprdrop"
